@@ -6,8 +6,9 @@
    field in one or two codewords or 0 = "to the end of the symbol", every field and data codeword randomised with
    the 255-state algorithm at its position), the C40 and Text encodations (5.2.5/5.2.6, Table 2: basic set and the
    three shift sets, Upper Shift = Shift 2 value 30, three values packed in two codewords, latch 230/239, unlatch
-   254 or the end-of-symbol forms), the ANSI X12 encodation (5.2.7, Table 3, latch 238) and padding (5.2.3 / Annex
-   B: 129, then 253-state randomised 129s).  Nothing of the crate's decoder is used here. *)
+   254 or the end-of-symbol forms), the ANSI X12 encodation (5.2.7, Table 3, latch 238), the EDIFACT encodation
+   (5.2.8: latch 240, four 6-bit values in three codewords, unlatch value 31, at most two ASCII-encoded codewords at
+   the end of the symbol) and padding (5.2.3 / Annex B: 129, then 253-state randomised 129s).  Nothing of the crate's decoder is used here. *)
 From Coq Require Import NArith List Bool.
 Import ListNotations.
 Local Open Scope N_scope.
@@ -94,7 +95,21 @@ Inductive segment :=
   | SB256 (bytes : list N)          (* explicit length field *)
   | SB256End (bytes : list N)       (* length field 0: runs to the end of the symbol; only as the last segment *)
   | SC40 (text : bool) (chars : list N) (fill : bool) (t : term)   (* fill: one Shift-1 value completes the last triple *)
-  | SX12 (chars : list N) (t : term).
+  | SX12 (chars : list N) (t : term)
+  | SEdifact (chars : list N) (t : term).
+
+(* EDIFACT: the 6 low bits of the characters 32..94; four values in three codewords, a shorter last group is cut
+   after the codeword that holds its last bit (the rest of that codeword is zero) *)
+Fixpoint pack_edi (vals : list N) : list N :=
+  match vals with
+  | v1 :: v2 :: v3 :: v4 :: r => [v1 * 4 + v2 / 16; (v2 mod 16) * 16 + v3 / 4; (v3 mod 4) * 64 + v4] ++ pack_edi r
+  | [v1; v2; v3] => [v1 * 4 + v2 / 16; (v2 mod 16) * 16 + v3 / 4; (v3 mod 4) * 64]
+  | [v1; v2] => [v1 * 4 + v2 / 16; (v2 mod 16) * 16]
+  | [v1] => [v1 * 4]
+  | [] => []
+  end.
+Definition edi_vals (chars : list N) (t : term) : list N :=
+  map (fun ch => ch mod 64) chars ++ match t with TUnlatch => [31] | TEnd => [] end.
 
 Definition c40_run_vals (text : bool) (chars : list N) (fill : bool) : list N :=
   flat_map (c40_vals text) chars ++ (if fill then [0] else []).
@@ -108,6 +123,8 @@ Definition segment_ok (s : segment) : bool :=
   | SB256End bytes => bytes_ok bytes
   | SC40 text chars fill _ => bytes_ok chars && (N.of_nat (length (c40_run_vals text chars fill)) mod 3 =? 0)
   | SX12 chars _ => forallb x12_ok chars && (N.of_nat (length chars) mod 3 =? 0)
+  | SEdifact chars t => forallb (between 32 94) chars &&
+                        match t with TEnd => N.of_nat (length chars) mod 4 =? 0 | TUnlatch => true end
   end.
 
 (* codewords of one segment when `before` codewords precede it *)
@@ -118,9 +135,10 @@ Definition segment_cw (before : N) (s : segment) : list N :=
   | SB256End bytes => 231 :: rand255_run (0 :: bytes) (before + 2)
   | SC40 text chars fill t => (if text then 239 else 230) :: pack_vals (c40_run_vals text chars fill) ++ term_cw t
   | SX12 chars t => 238 :: pack_vals (map x12_v chars) ++ term_cw t
+  | SEdifact chars t => 240 :: pack_edi (edi_vals chars t)
   end.
 Definition segment_data (s : segment) : list N :=
-  match s with SAscii items => flat_map aitem_data items | SB256 bytes | SB256End bytes => bytes | SC40 _ chars _ _ => chars | SX12 chars _ => chars end.
+  match s with SAscii items => flat_map aitem_data items | SB256 bytes | SB256End bytes => bytes | SC40 _ chars _ _ => chars | SX12 chars _ => chars | SEdifact chars _ => chars end.
 
 Fixpoint render (before : N) (segs : list segment) : list N :=
   match segs with
@@ -147,10 +165,28 @@ Definition ends_symbol (r : list segment) (npad : nat) : bool :=
   end.
 Definition term_of (s : segment) : option term :=
   match s with SC40 _ _ _ t | SX12 _ t => Some t | _ => None end.
+(* EDIFACT at the end of the symbol: the run stops without unlatch and at most two ASCII-encoded codewords follow *)
+Definition ends_symbol2 (r : list segment) (npad : nat) : bool :=
+  Nat.eqb npad 0 &&
+  match r with
+  | [] => true
+  | [SAscii items] => forallb aitem_ok items && Nat.leb (length (flat_map aitem_cw items)) 2
+  | _ => false
+  end.
+(* number of codewords of the rest (does not depend on the position) *)
+Definition rest_len (r : list segment) (npad : nat) : nat := (length (render 0 r) + npad)%nat.
+(* an explicit EDIFACT unlatch must not sit in the last two codewords of the symbol (those are read as ASCII) *)
+Definition unlatch_group_bytes (nchars : nat) : nat := match Nat.modulo nchars 4 with O => 1%nat | S O => 2%nat | _ => 3%nat end.
 Fixpoint script_ok (segs : list segment) (npad : nat) : bool :=
   match segs with
   | [] => true
   | SB256End b :: r => segment_ok (SB256End b) && match r with [] => Nat.eqb npad 0 | _ => false end
+  | SEdifact chars t :: r =>
+      segment_ok (SEdifact chars t) && script_ok r npad &&
+      match t with
+      | TEnd => ends_symbol2 r npad
+      | TUnlatch => Nat.leb 3 (unlatch_group_bytes (length chars) + rest_len r npad)
+      end
   | s :: r => segment_ok s && script_ok r npad &&
               match term_of s with Some TEnd => ends_symbol r npad | _ => true end
   end.
